@@ -76,11 +76,11 @@ CHECKS = {
         },
         "rule": ("conversions: rows of 0-4 values (value grid, random values, a pool of numeric-looking / malformed / time-like texts and the same as blobs) x 0..n+2 destinations over the nine supported "
                  "kinds, nil and four unsupported kinds; non-trivial = at least one destination and one column. lifetime: page size x rows with blob/text lengths 0..5000 (inline and overflow) x "
-                 "1-8 actions from {overwrite scanned slice, append to scanned slice, reread, rowid read, close, overwrite file, remove file}; non-trivial = a read after a mutation. "
+                 "first select into fresh per-row variables or into one variable that outlives the callback (results kept) x 1-8 actions from {overwrite scanned slice, append to scanned slice, reread, rowid read, close, overwrite file, remove file}; non-trivial = a read after a mutation, or a shared destination with a later blob that fits the capacity of an earlier one. "
                  "Distinct = fingerprint of the case spec."),
         "assumptions": ["system libsqlite3 (3.40.1) writes the files for the lifetime histories"],
         "min_nontrivial": {"quick": 300, "thorough": 5000},
-        "required_classes": ["conv:t->int64", "conv:missing->", "conv:args=more", "conv:args=fewer", "life:mutate-then-read=true", "life:overflow=true"],
+        "required_classes": ["conv:t->int64", "conv:missing->", "conv:args=more", "conv:args=fewer", "life:mutate-then-read=true", "life:overflow=true", "life:shared-dest-not-growing=true"],
         "timeout": {"quick": 300, "thorough": 1500},
         "jobs": [
             job("conv", "c18", ["TestC18Conv", "TestC18Shortcuts"], 30000, 500000, 1, 4),
@@ -341,7 +341,7 @@ CHECKS = {
         "manifest": {
             "technique": "stateful property-based testing with a harness-owned schedule: the real file pager is wrapped in a tracing pager (verif hook) whose hook runs generated side actions at generated pager-call / callback positions of a generated operation and exit path; observers are an out-of-process fcntl(F_GETLK) probe, the lock/page/unlock event order, and a real SQLite COMMIT attempted meanwhile and after return",
             "level_text": "Generated (operation, exit path, side-action schedule) histories; invariants: at every page read and callback inside the call the shared range is read-locked by this process, every page read lies between lock and unlock, nothing of ours stays locked after return (normal, early stop, error, injected page fault, callback panic), a SQLite writer cannot commit during the call and can after it. Side actions: writer commit attempts, handles on another file, a reader in another process (passing and parked), second handles of the same process. Sampled over schedules at pager-call granularity.",
-            "level_note": "POSIX locks are invisible to their holder, so the probe is a helper process; the window between the two fcntl calls inside one RLock is not explored; the Windows pager cannot run here. One listed known finding (second handle of the same process on the same file) is matched by history shape.",
+            "level_note": "POSIX locks are invisible to their holder, so the probe is a helper process; the window between the two fcntl calls inside one RLock is not explored; the Windows pager cannot run here. Second handles of the same process on the same file (open, read, close inside the call) are judged like every other history since db48f07 repaired the per-process lock bookkeeping.",
         },
         "rule": ("operation x exit path (normal, stop at k, unknown column/table/index, page fault at read j, panic in callback k) x 0-4 side actions at event positions 0-30, on databases of 1-120 rows with page sizes 512/1024/4096, optionally with a SQLite writer's open transaction (journal on disk, RESERVED held) or the journal of a crashed transaction present before the call; "
                  "plus database/sql result sets read for k rows then closed / cancelled / drained. Non-trivial = at least one side action ran. Distinct = fingerprint of the spec."),
@@ -380,7 +380,7 @@ CHECKS = {
         "level": "exploration",
         "tools": ["lockprobe"],
         "manifest": {
-            "technique": "property-based differential testing of the database/sql driver against the native API, under the race detector: rapid-generated SQLite-written databases x generated SELECT statements (`*` anywhere in the list, column lists with rowid spellings and duplicates, unknown table/column, non-SELECT and malformed text) x consumption plans (read all, Close after k rows, cancel after k rows, cancel from another goroutine after a generated number of scheduler yields, a page overwritten with 0xFF or the file truncated before the scan)",
+            "technique": "property-based differential testing of the database/sql driver against the native API, under the race detector: rapid-generated SQLite-written databases x generated SELECT statements (`*` anywhere in the list, column lists with rowid spellings and duplicates, unknown table/column, non-SELECT and malformed text) x consumption plans (read all, Close after k rows, cancel after k rows, cancel from another goroutine after a generated number of scheduler yields, a page overwritten with 0xFF or the file truncated before the scan, a prepared statement executed twice, optionally with an ALTER TABLE ADD/RENAME/DROP COLUMN by SQLite between the executions)",
             "level_text": "Generated (database, query, plan) triples; oracle: rows equal the native Select with `*` expanded to Columns() in definition order; whenever the native call fails an error surfaces through Query, Scan or rows.Err (a short result with a nil error is the violation); after Close/cancel rows.Close returns, no producer goroutine remains (stack dump, polled up to 5 s) and an out-of-process probe sees no lock of ours. Built with -race. Schedules of the cancel/producer race are sampled by the Go scheduler, not enumerated.",
             "level_note": "Corruption is applied to the file before the query (pages other than the first), so 'mid-scan' means pages the scan reaches later. Column names are compared case-insensitively.",
         },
@@ -388,7 +388,7 @@ CHECKS = {
                  "(a plan other than 'all', a bad query, or rows). Distinct = fingerprint of the spec."),
         "assumptions": ["system libsqlite3 (3.40.1) writes the databases"],
         "min_nontrivial": {"quick": 150, "thorough": 3000},
-        "required_classes": ["plan:all", "plan:close", "plan:cancel", "plan:cancel-async", "plan:corrupt", "plan:truncate", "plan:prepared", "bad:table", "bad:column", "bad:not-select", "star=true", "rows<=1000"],
+        "required_classes": ["plan:all", "plan:close", "plan:cancel", "plan:cancel-async", "plan:corrupt", "plan:truncate", "plan:prepared", "plan:prepared-alter", "bad:table", "bad:column", "bad:not-select", "star=true", "rows<=1000"],
         "timeout": {"quick": 500, "thorough": 2400},
         "jobs": [
             job("driver", "c19", ["TestC19Driver"], 200, 3000, 3, 10, race=True),
@@ -397,15 +397,15 @@ CHECKS = {
     "C20": {
         "level": "exploration",
         "manifest": {
-            "technique": "randomised concurrent execution under the race detector, driven by the property-based harness: rapid generates plans of 2-16 goroutines x 1-8 operations (native selects / index searches / primary key lookups on rowid and WITHOUT ROWID tables, low-level scans and Schema under explicit RLock, sql.Parse, comparator calls, Open/Close churn, database/sql queries on a shared pool) over three shared files, with GOMAXPROCS 1..16 and optional yields inside row callbacks; every result must equal the result of the same operation run alone",
-            "level_text": "Generated plans, oracle = the operation's own sequential result (computed first in the same process) plus the Go race detector (the check binary is built with -race; any report fails the run). Interleavings are whatever the Go scheduler produces for the generated GOMAXPROCS / yield settings; not enumerated, not reproducible schedule-by-schedule.",
-            "level_note": "Each goroutine uses its own native handles (the documented usage); the database/sql pool is shared, as database/sql intends. No writer runs, so the per-process nature of POSIX locks (C06's known finding) does not affect results here.",
+            "technique": "randomised concurrent execution under the race detector, driven by the property-based harness: rapid generates plans of 2-16 goroutines x 1-8 operations (native selects / index searches / primary key lookups on rowid and WITHOUT ROWID tables, low-level scans and Schema under explicit RLock, sql.Parse, comparator calls, Open/Close churn, database/sql queries on a shared pool) over three shared files and one file per plan whose stored DDL (and the statements of a parse operation) spell their keywords in a generated letter case and which is first touched inside the concurrent phase, with GOMAXPROCS 1..16 and optional yields inside row callbacks; every result must equal the result of the same operation run alone",
+            "level_text": "Generated plans, oracle = the operation's own sequential result (computed first in the same process; for operations on the plan's fresh file and fresh spellings computed after the concurrent phase, so that lazily filled shared state is filled under concurrency) plus the Go race detector (the check binary is built with -race; any report fails the run). Interleavings are whatever the Go scheduler produces for the generated GOMAXPROCS / yield settings; not enumerated, not reproducible schedule-by-schedule.",
+            "level_note": "Each goroutine uses its own native handles (the documented usage); the database/sql pool is shared, as database/sql intends.",
         },
-        "rule": ("plan = GOMAXPROCS in {1,2,4,8,16} x 2-16 workers x 1-8 operations each, operation kinds drawn from 15 kinds, files from 3 (5 / 60 / 700 rows; page sizes 512 / 1024 / 4096). "
+        "rule": ("plan = GOMAXPROCS in {1,2,4,8,16} x 2-16 workers x 1-8 operations each, operation kinds drawn from 16 kinds, files from 3 fixed ones (5 / 60 / 700 rows; page sizes 512 / 1024 / 4096) and the plan's fresh file (25 rows, keyword case pattern of 24 generated bits). "
                  "Non-trivial = at least two goroutines use the same file. Distinct = fingerprint of the plan."),
         "assumptions": ["the Go race detector sees the accesses of the interleavings that actually happen"],
         "min_nontrivial": {"quick": 60, "thorough": 1500},
-        "required_classes": ["procs=1", "procs=16", "same-file=true", "yield=true", "workers<=16"],
+        "required_classes": ["procs=1", "procs=16", "same-file=true", "yield=true", "workers<=16", "fresh-state-shared=true"],
         "timeout": {"quick": 500, "thorough": 2400},
         "jobs": [
             job("concurrent", "c20", ["TestC20Concurrent"], 40, 500, 3, 8, race=True, shrinktime="5s"),
